@@ -537,39 +537,48 @@ def readNumber (acc : Text) (pos : Nat) (cs : Text) : Step :=
 def eqIgnoreAsciiCase (a b : Text) : Bool :=
   a.length == b.length && (a.zip b).all (fun (x, y) => x.toLower == y.toLower || x == y)
 
+/-- the character names of `parse_char` (ASCII case-insensitive) -/
+def namedChar (s : Text) : Option Char :=
+  let named (n : Text) := eqIgnoreAsciiCase s n
+  if named t!"alarm" then some (Char.ofNat 7)
+  else if named t!"backspace" then some (Char.ofNat 8)
+  else if named t!"delete" then some (Char.ofNat 0x7F)
+  else if named t!"escape" then some (Char.ofNat 0x1B)
+  else if named t!"newline" then some '\n'
+  else if named t!"null" then some (Char.ofNat 0)
+  else if named t!"return" then some '\r'
+  else if named t!"space" then some ' '
+  else if named t!"tab" then some '\t'
+  else none
+
+/-- hexadecimal scalar value: `u32::from_str_radix(_, 16)` then `char::from_u32` -/
+def hexCharOf (p : Text) : Except LexErrKind Char :=
+  match parseHexU32 p with
+  | none => .error .invalidHexLiteral
+  | some n => if validScalar n then .ok (Char.ofNat n) else .error (.invalidCodePoint n)
+
+/-- the digits of `#\uXXXX`, `#\xXXXX`, `#\u{XXXX}` (`s` = `first :: more`) -/
+def charPayload (first : Char) (more s : Text) : Except LexErrKind Text :=
+  match more with
+  | '{' :: body =>
+    if first == 'u' then
+      if s.getLast? == some '}' then .ok body.dropLast else .error (.unclosedHex '}')
+    else .ok more
+  | _ => .ok more
+
 /-- `parse_char` on the characters after `#\` (nonempty) -/
 def parseCharName (s : Text) : Except LexErrKind Char :=
-  let named (n : Text) := eqIgnoreAsciiCase s n
-  if named t!"alarm" then .ok (Char.ofNat 7)
-  else if named t!"backspace" then .ok (Char.ofNat 8)
-  else if named t!"delete" then .ok (Char.ofNat 0x7F)
-  else if named t!"escape" then .ok (Char.ofNat 0x1B)
-  else if named t!"newline" then .ok '\n'
-  else if named t!"null" then .ok (Char.ofNat 0)
-  else if named t!"return" then .ok '\r'
-  else if named t!"space" then .ok ' '
-  else if named t!"tab" then .ok '\t'
-  else
+  match namedChar s with
+  | some c => .ok c
+  | none =>
     match s with
     | [] => .error .invalidCharName
     | first :: more =>
-      let escape := (first == 'u' || first == 'x') && utf8Len s > 1
-      if !escape then
-        if more.isEmpty then .ok first else .error .invalidCharName
-      else
-        let payload : Except LexErrKind Text :=
-          match more with
-          | '{' :: body =>
-            if first == 'u' then
-              if s.getLast? == some '}' then .ok body.dropLast else .error (.unclosedHex '}')
-            else .ok more
-          | _ => .ok more
-        match payload with
+      if (first == 'u' || first == 'x') && utf8Len s > 1 then
+        match charPayload first more s with
         | .error k => .error k
-        | .ok p =>
-          match parseHexU32 p with
-          | none => .error .invalidHexLiteral
-          | some n => if validScalar n then .ok (Char.ofNat n) else .error (.invalidCodePoint n)
+        | .ok p => hexCharOf p
+      else if more.isEmpty then .ok first else .error .invalidCharName
 
 /-- the scanning loop of `read_hash_value` (`esc` as in `scanWordAux`) -/
 def scanHashAux : Bool → Text → Text × Text
